@@ -8,6 +8,7 @@ import (
 	"fmt"
 	"math"
 	"sort"
+	"sync/atomic"
 	"time"
 
 	"github.com/anishathalye/porcupine"
@@ -61,6 +62,7 @@ type opRec struct {
 	Call int64  `json:"call_ns"`
 	Ret  int64  `json:"ret_ns"`
 	Bad  string `json:"bad,omitempty"` // direct observation at return time (foreign value etc.)
+	B2B  bool   `json:"-"`             // lookup issued by the same goroutine right after its own store of this key
 }
 
 type mIn struct {
@@ -208,12 +210,28 @@ func directCheck(ops []opRec) (class string, bad, because, stored *opRec) {
 	return "", nil, nil, nil
 }
 
+// witnessBudget limits the expensive parts (cross-validation of an already
+// classified violation, extraction of partial linearisations) to the first few
+// violating partitions of a run; the verdict never depends on it.
+var witnessBudget atomic.Int64
+
 // checkKey decides one key partition (ops on that key + whole-store deletes).
 func checkKey(ops []opRec, timeout time.Duration) keyVerdict {
-	sort.SliceStable(ops, func(i, j int) bool { return ops[i].Call < ops[j].Call })
+	if less := func(i, j int) bool { return ops[i].Call < ops[j].Call }; !sort.SliceIsSorted(ops, less) {
+		sort.SliceStable(ops, less)
+	}
 	var v keyVerdict
 	v.Class, v.BadOp, v.Because, v.Stored = directCheck(ops)
 	h := toPorcupine(ops)
+	if v.Class != "" {
+		// already decided by the letter of the property; porcupine (which has to
+		// exhaust the search space to say "illegal") only cross-checks the first few
+		if witnessBudget.Add(-1) < 0 {
+			v.Result = "skipped"
+			return v
+		}
+		timeout = 15 * time.Second
+	}
 	switch porcupine.CheckOperationsTimeout(mayForget, h, timeout) {
 	case porcupine.Ok:
 		v.Result = "ok"
@@ -221,11 +239,10 @@ func checkKey(ops []opRec, timeout time.Duration) keyVerdict {
 		v.Result = "unknown"
 	case porcupine.Illegal:
 		v.Result = "illegal"
-		vt := timeout
-		if vt > 20*time.Second {
-			vt = 20 * time.Second // the verdict stands; this run only fetches the witness
+		if v.Class == "" && witnessBudget.Add(-1) < 0 {
+			return v
 		}
-		_, info := porcupine.CheckOperationsVerbose(mayForget, h, vt)
+		_, info := porcupine.CheckOperationsVerbose(mayForget, h, 15*time.Second)
 		parts := info.PartialLinearizations()
 		if len(parts) > 0 {
 			var best []int
@@ -280,6 +297,8 @@ func checkerSelfTest() error {
 		{"resurrected", []opRec{st(1, 100, 1, 2), miss(3, 4), hit(1, 100, 5, 6)}, "illegal", ""},
 		{"chain", []opRec{st(1, 100, 1, 2), st(2, 100, 1, 6), hit(2, 100, 3, 4), hit(1, 100, 7, 8), hit(2, 100, 9, 10)}, "illegal", ""},
 	}
+	witnessBudget.Store(1 << 30)
+	defer witnessBudget.Store(4)
 	for _, c := range cases {
 		v := checkKey(append([]opRec(nil), c.ops...), 10*time.Second)
 		if v.Result != c.want || v.Class != c.class {
